@@ -1,5 +1,6 @@
 import BertE.Gen.Approvals
 import BertE.Model.Approvals
+import BertE.Model.AuthorOptions
 /- Line protocol of C04.
    `check <requiredPeers> <requiredLeaders> <flags> <robot> <author> <leaders> <participants> <approvals> <changeRequests>`
       flags: nine 0/1 characters = need_author_approval, bypass_author_approval (settings, per-author),
@@ -34,6 +35,15 @@ def handle (args : List String) : String :=
                          changeRequests := users crs }
       showOutcome (checkApprovals c i)
     | _, _, _ => "bad-op"
+  | ["authors", raw, author, key] =>
+    -- raw: user:name,name;user:name   ("-" = empty mapping, "user:" = empty list)
+    let entries : BertE.AuthorOptions.Raw := if raw == "-" then [] else (raw.splitOn ";").map (fun e =>
+      match e.splitOn ":" with
+      | [u, ns] => (u, if ns == "" then [] else ns.splitOn ",")
+      | _ => (e, []))
+    match BertE.AuthorOptions.deserialize BertE.Gen.Approvals.bypassList entries [] with
+    | none => "IncorrectSettingsFile"
+    | some r => if BertE.AuthorOptions.authorBypass r author key then "1" else "0"
   | ["settings", rp, rl, leaders] =>
     match rp.toInt?, rl.toInt? with
     | some rp, some rl =>
